@@ -18,6 +18,7 @@ SEED_TEXTS = [
     "old = 3\ngone = 4\noldl = {b}\nlast = q\n",
     "# c\n// d\n/* e\n f */ i = 1\ns = ${HOME}\nsn = \"${NOPE:-dflt}\"\n",
     "unk { a = 1 b { c = {1,2} } }\nunk2 += {1}\nunk3(a, b)\ni = 4\n",
+    "i = 7\nf = 2.25\nb = yes\ns = \"q\\\"uote \\\\ back\"\nil = {}\nsl += {\"x y\", 'z'}\ntm \"t 1\" { x = 1 deep d { z = \"a\\nb\" } }\nmulti { }\nkv { k = v }\n",
 ]
 
 
@@ -39,7 +40,7 @@ def replay_artifact(exe, path, work, timeout=100):
     return r.returncode != 0, r.stdout.decode("latin-1", "replace")
 
 
-def run_fuzz(r, target, pid, secs, empty_corpus_too=False):
+def run_fuzz(r, target, pid, secs, empty_corpus_too=False, prefix=True):
     d = buildmod.build(("fuzz",))
     exe = os.path.join(d, "fuzz", target)
     if not os.path.exists(exe):
@@ -59,11 +60,11 @@ def run_fuzz(r, target, pid, secs, empty_corpus_too=False):
                 for f in glob.glob(pat):
                     data = open(f, "rb").read()
                     for sc in range(8):
-                        open(os.path.join(corpus, "seed%d_%d" % (n, sc)), "wb").write(bytes([sc, (n * 7 + sc) & 31]) + data)
+                        open(os.path.join(corpus, "seed%d_%d" % (n, sc)), "wb").write((bytes([sc, (n * 7 + sc) & 31]) if prefix else b"") + data)
                     n += 1
             for i, t in enumerate(SEED_TEXTS):
                 for fl in (0, 2, 4, 7, 8, 16):
-                    open(os.path.join(corpus, "t%d_%d" % (i, fl)), "wb").write(bytes([i % 8, fl]) + t.encode("latin-1"))
+                    open(os.path.join(corpus, "t%d_%d" % (i, fl)), "wb").write((bytes([i % 8, fl]) if prefix else b"") + t.encode("latin-1"))
         else:
             open(os.path.join(corpus, "empty"), "wb").write(b"\x00\x00")
         seed = (r.seed % 100000) + 1
